@@ -10,8 +10,14 @@ import (
 
 // c05.script — a structured command script applied by the real NewTableCustom (addRoute/delRoute/weighRoute
 // + final sort) vs the Lean model's `newTable`. Observable: error class or canonical table dump.
+//
+// For the specification side the harness also runs two variants of the script on the real code and ships
+// their observables: the script with its last `add` repeated right after itself (idempotence) and the script
+// with the letter case of every host scrambled (case-insensitivity). The driver evaluates the property's
+// sentences on these outputs.
 type scriptIn struct {
 	Defs   []rt.Def               `json:"defs"`
+	Flip   uint64                 `json:"flip"` // seed of the case scrambling
 	Oracle map[string]interface{} `json:"oracle"`
 }
 
@@ -34,20 +40,49 @@ func errClass(err error) string {
 	return "badGlob"
 }
 
-func runScript(raw json.RawMessage) (interface{}, error) {
-	var in scriptIn
-	if err := json.Unmarshal(raw, &in); err != nil {
-		return nil, err
-	}
-	defs := make([]route.RouteDef, len(in.Defs))
-	for i := range in.Defs {
-		defs[i] = in.Defs[i].RouteDef()
+func applyDefs(ds []rt.Def) map[string]interface{} {
+	defs := make([]route.RouteDef, len(ds))
+	for i := range ds {
+		defs[i] = ds[i].RouteDef()
 	}
 	t, err := route.NewTableCustom(&defs)
 	if err != nil {
-		return map[string]interface{}{"error": errClass(err)}, nil
+		return map[string]interface{}{"error": errClass(err)}
 	}
-	return map[string]interface{}{"table": route.VerifDump(t, false)}, nil
+	return map[string]interface{}{"table": route.VerifDump(t, false)}
+}
+
+func runScript(in *scriptIn) (interface{}, error) {
+	out := applyDefs(in.Defs)
+	// variant 1: the last add, repeated immediately
+	last := -1
+	for i := range in.Defs {
+		if in.Defs[i].Cmd == "add" {
+			last = i
+		}
+	}
+	if last >= 0 {
+		dup := append([]rt.Def(nil), in.Defs[:last+1]...)
+		dup = append(dup, in.Defs[last])
+		dup = append(dup, in.Defs[last+1:]...)
+		out["dupLast"] = applyDefs(dup)
+	}
+	// variant 2: host letter case scrambled in every command
+	r := hx.NewRand(in.Flip, "flip")
+	rec := append([]rt.Def(nil), in.Defs...)
+	changed := false
+	for i := range rec {
+		s := scramble(r, rec[i].Src)
+		if s != rec[i].Src {
+			changed = true
+		}
+		rec[i].Src = s
+	}
+	out["recased"] = applyDefs(rec)
+	out["recasedChanged"] = changed
+	out["oracle"] = in.Oracle
+	out["defs"] = in.Defs // with the exact rationals of the weights filled in
+	return out, nil
 }
 
 func init() {
@@ -59,7 +94,7 @@ func init() {
 				n = 1 + r.Intn(40)
 			}
 			ds := rt.Small.GenScript(r, n)
-			return scriptIn{Defs: ds, Oracle: rt.Oracle(ds)}
+			return scriptIn{Defs: ds, Flip: r.U64() % 1000000, Oracle: rt.Oracle(ds)}
 		},
 		Run: func(raw json.RawMessage) (interface{}, error) {
 			// the oracle is recomputed on replay so that shrunk inputs stay self-consistent
@@ -71,8 +106,7 @@ func init() {
 				in.Defs[i].Fill()
 			}
 			in.Oracle = rt.Oracle(in.Defs)
-			raw2, _ := json.Marshal(in)
-			return runScript(raw2)
+			return runScript(&in)
 		},
 	})
 }
